@@ -82,6 +82,13 @@ class Facts:
                 if local and self.body(name) is not None and self.effectful(name, seen):
                     res = True
                     break
+            if not res:
+                # closures defined in the function are run by whoever it hands them to: their effects are effects of the function
+                pre = path + "::{closure#"
+                for b2 in self.fn_bodies():
+                    if b2["path"].startswith(pre) and self.effectful(b2["path"], seen):
+                        res = True
+                        break
         self._eff[path] = res
         return res
 
